@@ -61,6 +61,27 @@ CLAIMED = {
              "evaluated on the real outputs.",
         note="Bounded scope. GCTM: only 'exactly L, non-negative' (moment reproduction is optimiser accuracy, not decided). Heights "
              "of empty (zero-strength) slabs are not judged."),
+    "C04": dict(
+        engine="tlc+replay", design_ref="DESIGN.md §3 C04",
+        technique="TLA+ spec InfGeom.tla (new-row and stencil coordinates for both variants, integer squared-separation matrix, block structure, closed-form stencil count, constant-shift dataflow) checked by TLC; real objects must reproduce the model's geometry exactly; effective A and B are measured through add_row with a scripted Generator and the two covariance identities evaluated on the model's geometry with an independent SciPy von Karman covariance",
+        text="TLC decides the discrete skeleton for every size 2..17 (thorough to 33), n_columns 1..3(4) and stencil factors 1,2,4: "
+             "which cells form the stencil, in which order, at which squared separations from the new row; each configuration is then "
+             "one implementation test on 4 (pixel scale, r0, L0) triples: coordinates/separations exact, A/B measured through the "
+             "public add_row after the object has already stepped, reference-pixel and constant-shift laws to 1e-9, identities to a "
+             "float32-aware tolerance.",
+        note="The matrix identities are real-number facts: they are asserted numerically in the conformance layer (trusted: SciPy "
+             "kv/gamma, LAPACK); TLC supplies the geometry. Working-array contents are loaded through _scrn. Configurations whose "
+             "construction raises are outside the property."),
+    "C05": dict(
+        engine="tlc+replay+trace", design_ref="DESIGN.md §3 C05",
+        technique="TLA+ state machine InfScreen.tla over cell identities (AddRow/Read/Repr; ShiftByOne, NothingElseChanges, ReadsArePure, StreamAdvance as action properties) model-checked by TLC over all histories to the depth bound; every TLC state replayed into real screen objects (mode A) and recorded random programs validated by InfScreenTrace.tla (mode B)",
+        text="All operation histories of length <= 6 (8 thorough) for requested sizes 2..6 (2..9), both variants, stencil factors 1..2 "
+             "(1..3), including sizes whose internal working size is larger than requested; each state is executed on a real object "
+             "and the exposed cell identities and generator position compared; 400 (4000) recorded programs of 5-40 public calls on "
+             "sizes 2..9 are validated event by event against the model with all invariants and action properties on.",
+        note="Cell identities are read through _scrn and .scrn; generator position is inferred from the bit-generator state against a "
+             "reference stream. The stability clause is a spectral statement evaluated numerically on the measured one-step operator "
+             "(auxiliary, outside TLC)."),
 }
 
 NOT_APPLICABLE = {
